@@ -2,6 +2,7 @@
 C01 — Compress then decompress returns the original packet, bit for bit.
 -/
 import Schc.Proofs.Roundtrip
+import Schc.Proofs.StackRoundtrip
 
 namespace Schc
 
@@ -83,5 +84,43 @@ example :
        ⟨"c", 3, 0, .bi, .buf c, .equal, .notSent⟩, ⟨"e", 0, 0, .bi, .buf ⟨[], .left⟩, .ignore, .valueSent⟩]⟩
     Spec.applicable p r = true ∧ ((compress p r).bind fun s => decompress s r) = .ok ⟨p.raw.bits, .right⟩ := by
   decide
+
+/-- Rules WITH compute fields, abstractly: whenever running the compute functions over the rebuilt field list (zero
+    placeholders at the compute positions, everything else as C03 rebuilds it) gives the packet's bits back, the
+    round trip holds. The hypothesis is discharged for the IPv6 / UDP stack by `C01_ipv6_udp_compute`. -/
+theorem C01_roundtrip_compute (p : Packet) (r : Rule) (hn : r.nature = .compression)
+    (hdir : ∀ rf ∈ r.fields, Spec.dirApplies p.dir rf.dir = true)
+    (happ : Spec.applicable p r = true) (hfit : AllFitsC p.fields r.fields)
+    (hraw : p.raw.bits = p.fields.flatMap (·.value.bits) ++ p.payload.bits)
+    (fs' : Compute.Fields)
+    (hrun : runComputes (sortEntries (computeEntries r.fields 0))
+        (assemble r.fields (zeroed p.fields r.fields) ++ [(Gen.payloadId, ⟨p.payload.bits, .right⟩)]) = .ok fs')
+    (hbits : fs'.flatMap (·.2.bits) = p.fields.flatMap (·.value.bits) ++ p.payload.bits) :
+    ∃ c, compress p r = .ok c ∧ decompress c r = .ok ⟨p.raw.bits, .right⟩ :=
+  roundtrip_compute p r hn hdir happ hfit hraw fs' hrun hbits
+
+/-- The IPv6 / UDP stack with computed fields. For every packet whose first twelve fields are the IPv6 and UDP header
+    fields (whatever follows: CoAP fields, payload), every rule the matcher selects for it whose pairings are
+    lossless and which marks ANY SUBSET of IPv6 payload length, UDP length and UDP checksum as *compute*: if the
+    packet's two length fields and its checksum are what RFC 8200 / RFC 768 prescribe (`Valid6`, stated with the
+    model's own arithmetic, which C09 equates with the RFC formulas), decompress ∘ compress returns the packet bit
+    for bit. The compute functions run in the order `compute_function_sort` leaves them. -/
+theorem C01_ipv6_udp_compute (p : Packet) (r : Rule) (pf12 restF : List Field) (rf12 restR : List RuleField)
+    (hp : p.fields = pf12 ++ restF) (hr : r.fields = rf12 ++ restR) (h12p : pf12.length = 12) (h12r : rf12.length = 12)
+    (hids : pf12.map (·.id) = ids6)
+    (hn : r.nature = .compression) (hdir : ∀ rf ∈ r.fields, Spec.dirApplies p.dir rf.dir = true)
+    (happ : Spec.applicable p r = true) (hfit : AllFitsC p.fields r.fields)
+    (hraw : p.raw.bits = p.fields.flatMap (·.value.bits) ++ p.payload.bits)
+    (hncR : ∀ rf ∈ restR, rf.cda ≠ .compute)
+    (hvalid : Valid6 (fv pf12 3) (fv pf12 6) (fv pf12 7) (fv pf12 8) (fv pf12 9) (fv pf12 10) (fv pf12 11) (restOf restF restR p.payload)) :
+    ∃ c, compress p r = .ok c ∧ decompress c r = .ok ⟨p.raw.bits, .right⟩ :=
+  roundtrip_ipv6_udp p r pf12 restF rf12 restR hp hr h12p h12r hids hn hdir happ hfit hraw hncR hvalid
+
+/-- non-vacuity of `Valid6`: fe80::1 → fe80::2, ports 1000 → 2000, payload "hi": UDP length 10, checksum 0x8eb4 -/
+example :
+    let R (w v : Nat) : ABuf := ⟨Bits.ofNat w v, .right⟩
+    Valid6 (R 16 10) (R 128 338288524927261089654018896841347694593) (R 128 338288524927261089654018896841347694594)
+      (R 16 1000) (R 16 2000) (R 16 10) (R 16 0x8eb4) [(Gen.payloadId, R 16 0x6869)] := by
+  refine ⟨by decide +kernel, by decide +kernel, by decide +kernel, by decide +kernel, by decide +kernel, ⟨ABuf.ofNat 16 0x8eb4, by decide +kernel, by decide +kernel⟩⟩
 
 end Schc
